@@ -40,11 +40,13 @@ pub const K_BITS: u8 = 21;
 pub const K_TWO: u8 = 22;
 pub const K_THREE: u8 = 23;
 pub const K_CLEAR12: u8 = 24;
-const KIND_NAMES: [&str; 25] = [
+/// pseudo event: the history starts from this bit image (a reachable state, fast-forwarded)
+pub const K_STATE: u8 = 30;
+const KIND_NAMES: [&str; 31] = [
     "+=(a,b)", "-=(a,b)", "+=a", "-=a", "+=(a,(b,c))", "-=(a,(b,c))", "+=(a,(b,c,d))",
     "+=((a,b),(c,d))", "-=((a,b),(c,d))", "+=(a,[..])", "-=(a,[..])", "add_product", "sub_product",
     "clear", "", "", "", "", "", "", "neg", "from_bits(to_bits)", "into_two_posits",
-    "into_three_posits", "clear",
+    "into_three_posits", "clear", "", "", "", "", "", "start from reachable state",
 ];
 
 /// signed exact terms an accumulate event contributes, in the order the crate applies them
@@ -115,6 +117,7 @@ fn apply<Q: QT>(q: &mut Q, e: &Ev) {
         K_M_ADD => q.m_add_product(f(0), f(1)),
         K_M_SUB => q.m_sub_product(f(0), f(1)),
         K_CLEAR | K_CLEAR12 => q.i_clear(),
+        K_STATE => *q = Q::from_limbs_le(&e.p),
         K_NEG => q.i_neg(),
         _ => {}
     }
@@ -261,6 +264,83 @@ fn gen_event<Q: QT>(r: &mut Rng, prev: &[Ev], nar_ok: bool) -> Ev {
     Ev { kind, p }
 }
 
+/// A hostile *reachable* quire state. Every bit pattern other than NaR is a multiple of
+/// minpos^2 (the quire's least significant bit) inside the range, so some accumulate history
+/// starting from a cleared quire reaches it (possibly a very long one: a Q16E1 needs 2^15
+/// maxpos*maxpos terms to approach its range limit). Starting a walk there "fast-forwards" such a
+/// history; from_bits only copies the limbs.
+fn hostile_state<Q: QT>(r: &mut Rng) -> Vec<u64> {
+    let nl = ((Q::TOTAL_BITS + 63) / 64) as usize;
+    let topbits = (Q::TOTAL_BITS - 1) % 64 + 1; // bits used in the top limb
+    let topmask = if topbits == 64 { u64::MAX } else { (1u64 << topbits) - 1 };
+    let sign = 1u64 << (topbits - 1);
+    let mut l = vec![0u64; nl];
+    match r.below(8) {
+        0 => {
+            // just below +limit
+            for x in l.iter_mut() {
+                *x = u64::MAX;
+            }
+            l[nl - 1] = (sign - 1) & topmask;
+            l[0] &= !(r.next() & 0xffff);
+        }
+        1 => {
+            // just above -limit: 100..0 + small positive
+            l[nl - 1] = sign;
+            l[0] = 1 + r.below(1 << 12);
+        }
+        2 => {
+            // -limit plus something in a random limb
+            l[nl - 1] = sign;
+            let i = r.below(nl as u64) as usize;
+            l[i] |= (r.next() | 1) & if i == nl - 1 { sign - 1 } else { u64::MAX };
+        }
+        3 => {
+            // one limb only
+            let i = r.below(nl as u64) as usize;
+            l[i] = r.next() & if i == nl - 1 { topmask } else { u64::MAX };
+        }
+        4 => {
+            // small negative: all ones above a random tail
+            for x in l.iter_mut() {
+                *x = u64::MAX;
+            }
+            l[nl - 1] = topmask;
+            let i = r.below(nl as u64) as usize;
+            l[i] = r.next() & if i == nl - 1 { topmask } else { u64::MAX } | if i == nl - 1 { sign } else { 0 };
+            for j in 0..i {
+                l[j] = if r.chance(1, 2) { 0 } else { r.next() };
+            }
+        }
+        5 => {
+            // a limb boundary: 2^(64 i) and 2^(64 i) - 1, both signs
+            let i = 1 + r.below((nl - 1).max(1) as u64) as usize;
+            if nl > 1 {
+                if r.chance(1, 2) {
+                    l[i.min(nl - 1)] = 1;
+                } else {
+                    for j in 0..i.min(nl - 1) {
+                        l[j] = u64::MAX;
+                    }
+                }
+            } else {
+                l[0] = 1u64 << r.below(topbits as u64 - 1);
+            }
+        }
+        _ => {
+            for x in l.iter_mut() {
+                *x = r.next();
+            }
+            l[nl - 1] &= topmask;
+        }
+    }
+    // never the NaR pattern itself
+    if l[nl - 1] == sign && l[..nl - 1].iter().all(|&x| x == 0) {
+        l[0] = 1;
+    }
+    l
+}
+
 // ------------------------------------------------------------------ per-thread statistics
 #[derive(Default)]
 struct Stats {
@@ -269,7 +349,8 @@ struct Stats {
     fail_count: u64,
     histories: u64,
     events: u64,
-    kind_hist: [u64; 25],
+    kind_hist: [u64; 31],
+    fast_forwarded: u64,
     len_max: u64,
     limb_occupied: u64,
     limb_carry: u64,
@@ -347,6 +428,16 @@ fn history_c04<Q: QT>(r: &mut Rng, maxlen: u64, st: &mut Stats, sketch: &Sketch)
     let mut shadow = Val::Zero;
     let mut evs: Vec<Ev> = Vec::new();
     let mut since_clear: Vec<(bool, u64, Option<u64>)> = Vec::new();
+    let mut fast_forwarded = false;
+    if r.chance(1, 8) {
+        // fast-forward: start from a hostile reachable state (see hostile_state)
+        let start = hostile_state::<Q>(r);
+        q = Q::from_limbs_le(&start);
+        shadow = Val::from_fixed(&start, Q::TOTAL_BITS, Q::FRAC_BITS);
+        evs.push(Ev { kind: K_STATE, p: start });
+        fast_forwarded = true;
+        st.fast_forwarded += 1;
+    }
     let mut nar_seen = false;
     let mut nontrivial = false;
     st.histories += 1;
@@ -410,6 +501,7 @@ fn history_c04<Q: QT>(r: &mut Rng, maxlen: u64, st: &mut Stats, sketch: &Sketch)
         if e.kind == K_CLEAR {
             since_clear.clear();
             nar_seen = false;
+            fast_forwarded = false;
         } else {
             let ts = terms::<Q::P>(&e);
             if ts.iter().any(|t| t.1 == <Q::P as PT>::F.nar() || t.2 == Some(<Q::P as PT>::F.nar())) {
@@ -450,7 +542,7 @@ fn history_c04<Q: QT>(r: &mut Rng, maxlen: u64, st: &mut Stats, sketch: &Sketch)
     }
     st.len_max = st.len_max.max(evs.len() as u64);
     // ---- order independence (differential): random permutation of the terms since the last clear
-    if !nar_seen && since_clear.len() >= 2 {
+    if !nar_seen && !fast_forwarded && since_clear.len() >= 2 {
         let mut perm = since_clear.clone();
         for i in (1..perm.len()).rev() {
             let j = r.below(i as u64 + 1) as usize;
@@ -524,6 +616,10 @@ fn history_c12<Q: QT>(r: &mut Rng, maxlen: u64, st: &mut Stats, sketch: &Sketch)
     let mut q = Q::init();
     let mut evs: Vec<Ev> = Vec::new();
     st.histories += 1;
+    if r.chance(1, 3) {
+        q = Q::from_limbs_le(&hostile_state::<Q>(r));
+        st.fast_forwarded += 1;
+    }
     for _ in 0..len {
         // reach a new state
         let nar_ok = r.chance(1, 64);
@@ -697,9 +793,10 @@ fn run_for<Q: QT>(ctx: &Ctx, rep: &mut Report, c12: bool, histories: u64, maxlen
         tot.cov.merge(&l.cov);
         tot.histories += l.histories;
         tot.events += l.events;
-        for i in 0..25 {
+        for i in 0..31 {
             tot.kind_hist[i] += l.kind_hist[i];
         }
+        tot.fast_forwarded += l.fast_forwarded;
         tot.len_max = tot.len_max.max(l.len_max);
         tot.limb_occupied |= l.limb_occupied;
         tot.limb_carry |= l.limb_carry;
@@ -724,7 +821,7 @@ fn run_for<Q: QT>(ctx: &Ctx, rep: &mut Report, c12: bool, histories: u64, maxlen
         }
     }
     let mut kinds = J::obj();
-    for i in 0..25 {
+    for i in 0..31 {
         if tot.kind_hist[i] > 0 {
             kinds.set(KIND_NAMES[i], J::u(tot.kind_hist[i]));
         }
@@ -737,6 +834,7 @@ fn run_for<Q: QT>(ctx: &Ctx, rep: &mut Report, c12: bool, histories: u64, maxlen
         .with("event_kinds", kinds)
         .with("limbs_holding_significant_bits", bits(tot.limb_occupied))
         .with("limbs_changed_by_carry_or_borrow_only", bits(tot.limb_carry))
+        .with("histories_fast_forwarded_from_a_hostile_reachable_state", J::u(tot.fast_forwarded))
         .with("nar_injections", J::u(tot.nar_injections))
         .with("histories_stopped_because_exact_sum_left_the_range", J::u(tot.truncated_out_of_range))
         .with("order_permutation_checks", J::u(tot.order_checks))
@@ -791,6 +889,8 @@ pub fn replay_history(qname: &str, words: &[u64]) -> bool {
         for (i, e) in evs.iter().enumerate() {
             if e.kind == K_CLEAR {
                 shadow = Val::Zero;
+            } else if e.kind == K_STATE {
+                shadow = Val::from_fixed(&e.p, Q::TOTAL_BITS, Q::FRAC_BITS);
             } else {
                 for t in terms::<Q::P>(e) {
                     let tv = term_val::<Q::P>(&t);
